@@ -138,7 +138,8 @@ def main(tier):
     depths = [1000, 20000] if quick else [1000, 20000, 100000]
     for kind, tpl in RECURSION.items():
         for n in depths:
-            r = isolated(exe, HDR + tpl.format(n=n) + "\n"); iso += 1
+            # (deep recursion is slow on this interpreter - 100,000 constructor frames take more than 30 s - but every step stays bounded: give it time)
+            r = isolated(exe, HDR + tpl.format(n=n) + "\n", timeout=25 if n <= 20000 else 300); iso += 1
             st = r.get("status", "?")
             if st in ("COMPLETE", "ERROR", "HOST-STOPPED"): continue       # finished, or a catchable script error / host budget
             feat = {"kind": "recursion", "path_kind": kind, "status": st.split()[0]}
